@@ -33,8 +33,35 @@ pub fn gen(seed: u64, tier: Tier) -> ScenarioSpec {
         // the payload table may declare events that never occur (a recorder built with support it does not use)
         rec.extras.phantom = super::c17::gen_phantom(&mut rng, (rec.version[0], rec.version[1]));
     }
+    // rare and long: a character that stays away for exactly 65 536 rows (or turns up for the first time in
+    // row 65 536) — whatever a reader keeps per character about "the row I last saw you in" must be wide enough
+    let mut long_absence = false;
+    if rng.chance(1, if tier == Tier::Thorough { 2500 } else { 4000 }) {
+        long_absence = true;
+        if rec.ports.len() < 2 {
+            rec.ports = vec![PortSpec { port: 0, ptype: 0, ics: false }, PortSpec { port: 2, ptype: 1, ics: false }];
+        }
+        rec.ports.truncate(2);
+        for p in rec.ports.iter_mut() {
+            p.ics = false;
+        }
+        let k = rng.usize_below(3);
+        let first_seen = rng.chance(1, 2);
+        let n = k + 65_536 + 1 + rng.usize_below(4);
+        let pseed = rng.next_u64();
+        rec.frames = (0..n)
+            .map(|r| {
+                let b_present = if first_seen { r >= 65_536 } else { r == k || r >= k + 65_536 };
+                FrameSpec { id: -123 + r as i32, present: 0b01 | if b_present { 0b0100 } else { 0 }, items: 0, pseed: crate::prng::mix(pseed, r as u64) }
+            })
+            .collect();
+        rec.gecko = None;
+        rec.extras = Extras::default();
+        rec.irregular = Irregular::default();
+    }
     let len = gen::approx_len(&rec);
-    let live = rng.chance(1, 2);
+    // (the long game is read in one shot: the per-event oracle re-examines rows and would take minutes)
+    let live = !long_absence && rng.chance(1, 2);
     let mut spec = gen::base_spec(P, if live { "S2" } else { "S1" }, seed, rec);
     spec.stream = gen::gen_stream(&mut rng, len, true);
     if live {
